@@ -1704,3 +1704,55 @@ fn uf_compress_all(map: &mut [Option<SymIdx>]) {
         }
     }
 }
+
+// Verification hook (additive; compiled only with `--cfg llg_verif`): a structured view of a
+// `Grammar`, so that the language before and after `optimize()` can be compared without
+// parsing `to_string()` output.
+#[cfg(llg_verif)]
+pub struct VerifRule {
+    pub cond: ParamCond,
+    pub rhs: Vec<(usize, ParamExpr)>,
+}
+
+#[cfg(llg_verif)]
+pub struct VerifSymbol {
+    pub name: String,
+    pub lexeme: Option<usize>,
+    pub gen_grammar: bool,
+    pub capture_name: Option<String>,
+    pub stop_capture_name: Option<String>,
+    pub max_tokens: usize,
+    pub is_start: bool,
+    pub parametric: bool,
+    pub rules: Vec<VerifRule>,
+}
+
+#[cfg(llg_verif)]
+impl Grammar {
+    /// (start symbol index, symbols)
+    pub fn verif_dump(&self) -> (usize, Vec<VerifSymbol>) {
+        let syms = self
+            .symbols
+            .iter()
+            .map(|s| VerifSymbol {
+                name: s.name.clone(),
+                lexeme: s.lexeme.map(|l| l.as_usize()),
+                gen_grammar: s.gen_grammar.is_some(),
+                capture_name: s.props.capture_name.clone(),
+                stop_capture_name: s.props.stop_capture_name.clone(),
+                max_tokens: s.props.max_tokens,
+                is_start: s.props.is_start,
+                parametric: s.props.parametric,
+                rules: s
+                    .rules
+                    .iter()
+                    .map(|r| VerifRule {
+                        cond: r.condition.clone(),
+                        rhs: r.rhs.iter().map(|(i, e)| (i.as_usize(), e.clone())).collect(),
+                    })
+                    .collect(),
+            })
+            .collect();
+        (self.start().as_usize(), syms)
+    }
+}
